@@ -92,12 +92,27 @@ def find_loops(body):
     return res
 
 
+MARK_RX = re.compile(r'let\s+(?:mut\s+)?(\w+)\s*=\s*(?:p|self)\.start_node\(\)\s*;')
+
+
+def resolve_marks(name, body, text):
+    """`$mK` in a clause = the variable bound by the K-th `let X = p.start_node();` of the function
+    (positional, so that renaming a local does not disturb a contract)."""
+    marks = MARK_RX.findall(body)
+
+    def rep(mm):
+        k = int(mm.group(1))
+        if k >= len(marks):
+            raise AnchorLost('%s: clause refers to $m%d but the function has %d start_node bindings' % (name, k, len(marks)))
+        return marks[k]
+    return re.sub(r'\$m(\d+)', rep, text)
+
+
 def weave_body(name, body, loops_spec, proof_entry, used):
     loops = find_loops(body)
-    wanted = sorted(k for (nm, k) in loops_spec if nm == name)
-    for k in wanted:
-        if k >= len(loops):
-            raise AnchorLost('@loop %s#%d: function has only %d loops' % (name, k, len(loops)))
+    orig_body = body
+    # a @loop entry whose loop no longer exists is dropped (recorded by assemble), not fatal: the function is then
+    # verified against its own contract with whatever loops it has now
     # insert from the back so indices stay valid
     out = body
     for k in reversed(range(len(loops))):
@@ -106,6 +121,7 @@ def weave_body(name, body, loops_spec, proof_entry, used):
         if not sp:
             continue
         used.add((name, k))
+        sp = {key: resolve_marks(name, orig_body, val) for key, val in sp.items()}
         clauses = []
         for key in ('invariant_except_break', 'invariant'):
             if sp.get(key):
@@ -152,6 +168,11 @@ def emit_fn(item, fns_spec, loops_spec, used_fn, used_loop, defaulted):
     body = weave_body(item.name, item.body, loops_spec, sp.get('proof_entry'), used_loop)
     return '\n'.join(lines) + '\n' + body + '\n'
 
+
+# without these the unit cannot carry the properties at all
+CORE_FNS = ('Parser::start_node', 'Parser::start_node_before', 'Parser::finish_node', 'Parser::bump', 'Parser::nth',
+            'Parser::error', 'Parser::eof', 'Parser::at', 'Parser::at_any', 'Parser::eat', 'Parser::expect', 'module',
+            'TokenSet::new', 'TokenSet::union', 'TokenSet::contains', 'mask')
 
 CONST_NEW_RX = re.compile(r'^TokenSet::new\(\s*&\[(.*?)\]\s*\)(.*)$', re.S)
 UNION_RX = re.compile(r'^\.union\(\s*([A-Z_0-9]+)\s*\)(.*)$', re.S)
@@ -218,12 +239,17 @@ def assemble(ex, prelude, fns_spec, loops_spec, stubs, top=None):
     chunks.append(('} // verus!\nfn main() {}\n', None))
 
     names = set(it.name for it in items if it.kind == 'fn')
+    dropped_anchors = []
     for nm in fns_spec:
         if nm not in names:
-            raise AnchorLost('@fn %s: no such function in the working tree' % nm)
+            if nm in CORE_FNS:
+                raise AnchorLost('@fn %s: no such function in the working tree' % nm)
+            dropped_anchors.append('@fn %s' % nm)
     for key in loops_spec:
         if key not in used_loop:
-            raise AnchorLost('@loop %s#%d: anchor not found' % key)
+            dropped_anchors.append('@loop %s#%d' % key)
+    if len(dropped_anchors) > 8:
+        raise AnchorLost('too many contract anchors no longer exist in the working tree: %s' % dropped_anchors[:10])
 
     text = ''
     linemap = []
@@ -234,7 +260,7 @@ def assemble(ex, prelude, fns_spec, loops_spec, stubs, top=None):
             linemap.append((line, line + n - 1, it.path, it.line, it.name))
         text += chunk
         line += n
-    info = {'contracted': sorted(used_fn), 'defaulted': defaulted,
+    info = {'contracted': sorted(used_fn), 'defaulted': defaulted, 'dropped_anchors': dropped_anchors,
             'loops_contracted': sorted('%s#%d' % k for k in used_loop)}
     return text, linemap, info
 
